@@ -411,6 +411,9 @@ func (p *Payload) Validate() error {
 
 	visitedIDs := make(map[int32]any)
 	for _, action := range p.PreActions {
+		if action == nil {
+			return ErrNilPointer.Wrap("action is not set")
+		}
 		if _, found := visitedIDs[int32(action.Id)]; found {
 			return fmt.Errorf("received repeated action ID: %v", action.ID())
 		}
